@@ -10,19 +10,25 @@ from framework import LEAN, pmap, write_if_changed
 
 ID = 'C05'
 LEAN_MODULES = ['Pfst.Props.C05']
-LEAN_DEPS = ['Pfst.ParseWrap', 'Pfst.ParseWrapLemmas']
+LEAN_DEPS = ['Pfst.ParseWrap', 'Pfst.ParseWrapLemmas', 'Pfst.SeqFix', 'Pfst.TrailSep', 'Pfst.TrailSepLemmas']
 THEOREMS = [
     'Pfst.C05.wrap_positions', 'Pfst.C05.embed_text', 'Pfst.C05.rebase_embed', 'Pfst.C05.rebase_embed_at',
     'Pfst.C05.astloc_whole', 'Pfst.C05.no_escape', 'Pfst.C05.verify_sound', 'Pfst.C05.escape_detected',
     'Pfst.C05.mode_total', 'Pfst.C05.modes_match_spec', 'Pfst.C05.class_modes_match_spec', 'Pfst.C05.wrappers_sound',
-    'Pfst.C05.wrappers_observed',
+    'Pfst.C05.wrappers_observed', 'Pfst.C05.b2c_c2b_boundary', 'Pfst.C05.fixSeq_trailing', 'Pfst.C05.fixSeq_no_trailing',
+    'Pfst.C05.trailing_sep_spec', 'Pfst.C05.trailing_comma_spec', 'Pfst.C05.trailing_semicolon_spec',
+    'Pfst.C05.trailing_sep_same_language', 'Pfst.C05.trailing_sep_blanks',
 ]
 RULE = ('(1) whole programs (snippets, generated, layout-mutated, commented, multi-byte, stdlib chunks) through exec/stmts/strict/'
         'all/eval/single and FST(src): source unchanged, tree == ast.parse with positions; (2) for every extended mode, fragments '
         'of its category cut out of CPython-parsed programs by CPython positions and CPython tokens (node spans, spans grown over '
         'enclosing parentheses, regions inside call/def/class/subscript/type-parameter delimiters, operator tokens, dedented '
         'blocks), each in 6-9 layout variants (leading/trailing comment lines with non-ASCII text, blank line, continuation-line '
-        'first line, leading blanks), parsed by fst.parsex.parse and FST(text, mode) and compared with the sub-tree of the full '
+        'first line, leading blanks), plus PHRASES: sequences (tuples, slices, call arguments, open sequence patterns, class-pattern '
+        'arguments, with-items, type parameters, def/lambda arguments) re-assembled from program elements and non-ASCII atoms with '
+        'generated separator layouts (separator on its own following line at assorted columns incl. the byte/character column where '
+        'the previous element ended, trailing separators, comments, blank lines, no line continuations), expected tree = CPython on the '
+        'genuine enclosing construct rebased (cross-checked with the continuation-joined text); all parsed by fst.parsex.parse and FST(text, mode) and compared with the sub-tree of the full '
         'program rebased to the fragment (lines minus start line, first-line byte columns minus start column); a fragment counts '
         'as "must be accepted" only if CPython accepts it embedded in the genuine construct with the same structure; (3) malformed '
         'stream: the 46 strings of tests/data/data_parse_invalid_src.txt plus generated wrapper escapes / wrong-category strings '
@@ -34,8 +40,11 @@ TRUSTED = [
     'modelled (Pfst/ParseWrap.lean): wrapper embedding, _offset_linenos (incl. the falsy end_lineno skip), _astloc_from_src, the '
     'harness rebasing rule, _verify_no_close_delimiters (line assembly + depth count), delimiter matching; extracted every run: '
     'mode table, class-mode table, wrapper families and their line deltas (Pfst/Gen/Modes.lean)',
-    'not modelled: CPython itself; _fix_undelimited_seq_parsed_delimited (uses next_frag/prev_frag, C06 territory), '
-    '_has_trailing_comma/_semicolon regexes, parse__match_cases indentation undo (uses FST._get_indentable_lns), the dangling '
+    '_fix_undelimited_seq_parsed_delimited is modelled in Pfst/SeqFix.lean on top of the next_frag/prev_frag model of Pfst/Scan.lean (C06) and '
+    'tied by replaying recorded real calls; _has_trailing_comma/_semicolon (repaired linear patterns) are modelled in Pfst/TrailSep.lean '
+    '(deterministic scan, proved equal to the pattern language and to the language of the pre-repair pattern) and tied by '
+    'correspondence; not modelled: CPython itself; '
+    'parse__match_cases indentation undo (uses FST._get_indentable_lns), the dangling '
     'BoolOp/Compare internal parsers, parse_all category guessing, type_comments/feature_version parse_params — all exercised by '
     'the sweep with CPython as judge only',
     'excluded input classes: fragments inside f-strings; Store/Del-context expressions as expr fragments; block fragments that '
@@ -230,6 +239,10 @@ def run_fragment(fr, variants=True):
         res = {'mode': fr.mode, 'kind': fr.kind, 'variant': vname, 'text': T}
         if '\r' in T or '\f' in T:
             continue
+        if F.redos_risk(T):
+            res['skip'] = 'redos-risk (C05-F7)'
+            out.append(res)
+            continue
         if not F.balanced(T):
             res['skip'] = 'unbalanced-extraction' if vname == 'base' else 'variant-unbalanced'
             out.append(res)
@@ -286,7 +299,14 @@ def run_fragment(fr, variants=True):
         if vname == 'base' and fr.container is None and fr.opcls is None:
             try:
                 ra = px.parse(T, 'all')
-                if type(ra) is type(fr.nodes[0]) and F.dump(ra, False) == F.dump(fr.nodes[0], False):
+                if must and fr.mode == 'expr_all' and isinstance(ra, ast.expr):
+                    # whatever expression `all` makes of the text must be the expression CPython sees in it
+                    d1, d2 = F.dump(ra), F.dump(F.rebase(fr.nodes[0], fr.l0, fr.c0, fr.dedent, dl, dc1))
+                    res['all'] = 'same'
+                    if d1 != d2 and 'fail' not in res:
+                        res['fail_all'] = ('tree' if F.dump(ra, False) != F.dump(fr.nodes[0], False) else 'positions', _fd(d1, d2))
+                        res['expected'] = _canon_expected(fr, T, dl, dc1)
+                elif type(ra) is type(fr.nodes[0]) and F.dump(ra, False) == F.dump(fr.nodes[0], False):
                     d1, d2 = F.dump(ra), F.dump(F.rebase(fr.nodes[0], fr.l0, fr.c0, fr.dedent, dl, dc1))
                     res['all'] = 'same'
                     if d1 != d2 and 'fail' not in res:
@@ -329,6 +349,25 @@ def _frag_worker(arg):
             k += 1
             if k % NSHARDS == shard:
                 out.extend(run_fragment(fr))
+    return out
+
+
+def _phrase_worker(arg):
+    src, seed, n, var_frac = arg
+    rng = random.Random(seed)
+    P = None
+    if src is not None:
+        try:
+            P = F.Prog(src)
+        except Exception:
+            P = None
+    out = []
+    for fam, T in F.phrase_texts(P, rng, n):
+        for fr in F.phrase_frags(fam, T):
+            if isinstance(fr, tuple):
+                out.append({'mode': fr[1], 'kind': 'phrase:' + fam, 'variant': 'base', 'text': T, 'skip': 'oracle-disagree'})
+                continue
+            out.extend(run_fragment(fr, variants=rng.random() < var_frac))
     return out
 
 
@@ -378,7 +417,7 @@ def _native_worker(src):
     from fst import FST
     px = _px()
     out = []
-    if '\r' in src or '\f' in src:
+    if '\r' in src or '\f' in src or F.redos_risk(src):
         return out
     try:
         ref = ast.parse(src)
@@ -428,6 +467,8 @@ def _native_worker(src):
         if getattr(s, 'decorator_list', None):
             continue
         T = '\n'.join(lines[s.lineno - 1:s.end_lineno])
+        if F.redos_risk(T):
+            continue
         try:
             one = ast.parse(T)
         except Exception:
@@ -531,7 +572,7 @@ def generated_malformed(rng, n_random):
         out.append(('unbalanced:' + F.shape(s), s))
     # wrong category / too many / trailing garbage (balanced)
     for s in ['a:b', 'a:b:c', 'a\nb', 'a;b', 'a; b', 'a;', 'a b', 'a,', 'a, b', 'a=1, b=2', 'a=1,', '*a', '**a', '*not a', '*a or b',
-              'x for x in y', 'x for x in y, z', 'for x in y', 'for x in y if z', 'if a', 'if a if b', 'if a else b', 'a if b',
+              'x for x in y', 'x for x in y, z', '*b for b in c', '(a) for a in b', '+ a for a in b', '.x for x in y', 'or a for a in b', 'for x in y', 'for x in y if z', 'if a', 'if a if b', 'if a else b', 'a if b',
               'a as b', 'a as b, c', 'a as b,', 'a.b as c', '* as b', 'a.b', '*', 'a := 1', 'yield', 'yield a', 'lambda', 'lambda: 1',
               'except: pass', 'except: pass\nexcept: pass', 'except: pass\nelse: pass', 'except: pass\nfinally: pass',
               'case 1: pass', 'case 1: pass\ncase 2: pass', 'case 1: pass\nx', 'case', '@a', '@a\n@b', '@a\nclass c: pass', 'a =', 'a = b', 'a = b =',
@@ -571,6 +612,8 @@ def _mal_worker(arg):
     label, T = arg
     px = _px()
     out = []
+    if F.redos_risk(T):
+        return out
     bal = F.balanced(T)
     wacky = any(c in T for c in '\r\x0c\x00')
     for mode in _mal_modes():
@@ -696,10 +739,48 @@ def _rand_text(rng, nl=True):
     return ''.join(rng.choice(alpha) for _ in range(rng.randint(0, 14)))
 
 
+def _set_guard(ctx):
+    """texts ending in a long run of blanks hang an unrepaired tree (C05-F7, uninterruptible regex): they are generated only
+    when the timing probe shows linear behaviour"""
+    slow = _timing_probe(ctx, report=False)
+    F.REDOS_GUARD = bool(slow)
+    ctx.notes['trailing_blank_runs_generated'] = not slow
+    return slow
+
+
 def correspondence(ctx):
     px = _px()
     rng = random.Random(ctx.rng.random())
     q = ctx.quick
+    _set_guard(ctx)
+    # (h) _has_trailing_comma / _has_trailing_semicolon vs the deterministic scan
+    cases, impl = [], []
+    triv = [' ', ' ', ')', '\n', '\t', ' # c\n', '#é,;\n', '\\\n', '\x0c', '\u00a0', '  ']
+    maxrun = 8 if F.REDOS_GUARD else 60
+    for _ in range(500 if q else 5000):
+        nl = rng.randint(1, 4)
+        lines = [''.join(rng.choice(['a', 'é', '"ü"', '(', 'b', ' ', '日']) for _ in range(rng.randint(1, 6))) for _ in range(nl)]
+        ln = rng.randint(1, nl)
+        col = rng.randint(0, len(lines[ln - 1]))
+        tail = ''.join(rng.choice(triv) for _ in range(rng.randint(0, maxrun)))
+        tail += rng.choice([',', ';', '', 'x', ',', ';', '#', '\\', ', b', '; c'])
+        pre = '\n'.join(lines[:ln - 1] + [lines[ln - 1][:col]])
+        src = pre + tail
+        if rng.random() < 0.3:
+            src += '\n' + ''.join(rng.choice(triv + ['x', ',']) for _ in range(rng.randint(0, 5)))
+        bcol = len(lines[ln - 1][:col].encode())
+        eln = ln if rng.random() < 0.95 else ln + rng.randint(1, 2)
+        if eln != ln:
+            bcol = 0        # (a byte column is only meaningful on its own line)
+        for fn, sep in ((px._has_trailing_comma, ','), (px._has_trailing_semicolon, ';')):
+            try:
+                r = bool(fn(src, eln, bcol))
+            except Exception as e:
+                r = 'exc:' + type(e).__name__
+            cases.append({'f': 'C05.trailing_sep', 'src': src, 'end_lineno': eln, 'end_col': bcol, 'sep': sep})
+            impl.append(r)
+    ctx.compare('_has_trailing_comma/_has_trailing_semicolon vs Pfst.TrailSep.hasTrailingSep', cases, impl,
+                nontrivial=lambda c, o: o is True or not c['src'].isascii())
     # (a) _astloc_from_src
     cases, impl = [], []
     for _ in range(400 if q else 4000):
@@ -810,6 +891,46 @@ def correspondence(ctx):
     ctx.compare('wrap_positions on extracted wrapper families vs text handed to CPython', cases, impl,
                 nontrivial=lambda c, o: not c['src'].isascii() or '\n' in c['src'])
     ctx.notes['wrapper_families_newline_delimited'] = len(fam)
+    # (g) _fix_undelimited_seq_parsed_delimited: real calls recorded while parsing undelimited multi-line sequences (and
+    #     wrapper escapes) in expr / pattern modes, replayed through the Lean model
+    real_fix = px._fix_undelimited_seq_parsed_delimited
+    rec = []
+
+    def rec_fix(src, ast_, field='elts', lineno=2, delims='()'):
+        elts = getattr(ast_, field)
+        case = {'f': 'C05.fix_seq', 'lines': src.split('\n'), 'e0': _loc4(elts[0]), 'en': _loc4(elts[-1]), 'ast_end': ast_.end_lineno,
+                'lineno': lineno, 'delims': delims}
+        if len(elts) > 1:
+            case['e1'] = elts[1].lineno
+        try:
+            real_fix(src, ast_, field, lineno, delims)
+        except SyntaxError:
+            rec.append((case, None))
+            raise
+        except Exception as e:
+            rec.append((case, {'exc': type(e).__name__}))
+            raise
+        rec.append((case, _loc4(ast_)))
+
+    texts = [T for fam, T in F.phrase_texts(None, rng, 500 if q else 5000) if fam in ('tuple', 'tuple-star', 'patterns')]
+    texts += [T for _, T in invalid_data_strings() + generated_malformed(rng, 100 if q else 1000)]
+    px._fix_undelimited_seq_parsed_delimited = rec_fix
+    try:
+        for T in texts:
+            if F.redos_risk(T):
+                continue
+            for mode in ('expr', 'pattern'):
+                try:
+                    px.parse(T, mode)
+                except Exception:
+                    pass
+    finally:
+        px._fix_undelimited_seq_parsed_delimited = real_fix
+    ctx.compare('_fix_undelimited_seq_parsed_delimited (recorded real calls) vs Pfst.SeqFix.fixSeq', [c for c, _ in rec], [o for _, o in rec],
+                keyf=lambda c: str(c)[:1500], nontrivial=lambda c, o: len(c['lines']) > 1 or any(not l.isascii() for l in c['lines']))
+    ctx.notes['fix_seq_calls'] = len(rec)
+    ctx.notes['fix_seq_raises'] = sum(1 for _, o in rec if o is None)
+    ctx.notes['fix_seq_nonascii_multiline'] = sum(1 for c, o in rec if o and len(c['lines']) > 1 and any(not l.isascii() for l in c['lines']))
     # (f) rebasing: Lean rebaseAt on CPython's positions of the full program == positions pfst returns for the fragment
     cases, impl = [], []
     for src in progs[:40 if q else 300] + EXTRA:
@@ -842,7 +963,7 @@ def _programs(ctx, n, stdlib):
     return corpus.programs(rng, n, stdlib=stdlib) + EXTRA
 
 
-def _run_all(ctx, nprog, nstd, per_kind, cap, n_random_mal):
+def _run_all(ctx, nprog, nstd, per_kind, cap, n_random_mal, n_phrase_jobs=48, n_phrase=40):
     progs = _programs(ctx, nprog, nstd)
     # (1)
     rows = [r for lst in pmap(_native_worker, progs) for r in lst]
@@ -857,6 +978,17 @@ def _run_all(ctx, nprog, nstd, per_kind, cap, n_random_mal):
     results = [r for lst in res for r in lst]
     _report(ctx, results)
     ctx.notes['fragment_parses'] = len(results)
+    # (2b) phrases: re-separated sequences (separators on following lines, trailing separators, non-ASCII on every line)
+    pj = [(p if i % 3 else None, ctx.rng.randrange(1 << 30), n_phrase, 0.25) for i, p in enumerate(progs[:n_phrase_jobs])]
+    pres = [r for lst in pmap(_phrase_worker, pj) for r in lst]
+    _report(ctx, pres)
+    ctx.notes['phrase_parses'] = len(pres)
+    ctx.notes['phrase_oracle_disagreements'] = sum(1 for r in pres if r.get('skip') == 'oracle-disagree')
+    for r in pres:
+        if 'skip' not in r and r.get('must'):
+            ctx.tally('phrase_must_accept', r['mode'] + '|' + r['kind'])
+            if '\n' in r['text'] and not r['text'].isascii() and '\\\n' not in r['text']:
+                ctx.tally('phrase_multiline_nonascii_no_continuation', r['mode'])
     ok = [r for r in results if 'fail' not in r and 'skip' not in r and 'raised' not in r and r['variant'] != 'base' and '\n' in r['text']]
     if ok:
         r = ok[len(ok) // 2]
@@ -875,16 +1007,49 @@ def _run_all(ctx, nprog, nstd, per_kind, cap, n_random_mal):
                                                                  - {'all', 'strict', 'exec', 'eval', 'single', 'stmts'})
 
 
+def _time_parse(px, T, mode):
+    import time
+    best = 1e9
+    for _ in range(3):
+        t = time.perf_counter()
+        try:
+            px.parse(T, mode)
+        except Exception:
+            pass
+        best = min(best, time.perf_counter() - t)
+    return best
+
+
+def _timing_probe(ctx, report=True):
+    """a tree must be produced at all: parse time must not explode with the number of blanks after the last node"""
+    px = _px()
+    out = []
+    for mode, head in (('all', 'a'), ('expr', 'a'), ('withitem', 'a'), ('type_param', 'T')):
+        t8 = _time_parse(px, head + ' ' * 8 + '# c', mode)
+        t20 = _time_parse(px, head + ' ' * 20 + '# c', mode)
+        ctx.count(('timing', mode), True)
+        if t20 > 0.02 and t20 > 100 * max(t8, 2e-5):
+            out.append(mode)
+            if report:
+                ctx.fail(f'C05|{mode}|trailing-blanks|exponential-time',
+                         f'parse({head!r} + 20 blanks + "# c", {mode!r}) takes {t20:.3f}s vs {t8:.5f}s with 8 blanks (x4 per 2 blanks: '
+                         f'40 blanks never finish)', {'kind': 'timing', 'mode': mode, 'text': head + ' ' * 20 + '# c', 'class': 'exponential-time'})
+    return out
+
+
 def sweep(ctx):
+    _timing_probe(ctx)
+    _set_guard(ctx)
     if ctx.quick:
         _run_all(ctx, 70, 6, 2, 5, 150)
     else:
-        _run_all(ctx, 900, 120, 4, 10, 2500)
+        _run_all(ctx, 900, 120, 4, 10, 2500, 400, 120)
 
 
 def search(ctx):
     """A proof / extraction / correspondence obligation broke: evaluate the property itself on the implementation, wider."""
-    _run_all(ctx, 500, 60, 4, 8, 1500)
+    _set_guard(ctx)
+    _run_all(ctx, 500, 60, 4, 8, 1500, 200, 100)
 
 
 def replay(ctx, data):
@@ -898,6 +1063,10 @@ def replay(ctx, data):
         rows = [r for r in _mal_worker((w.get('label', 'replay'), T)) if r[0] == mode and r[3] not in ('raised', 'accepted')]
         for r in rows:
             ctx.fail('replay', f'{r[3]}: {r[4]}', w)
+        return
+    if w['kind'] == 'timing':
+        if w['mode'] in _timing_probe(ctx, report=False):
+            ctx.fail('replay', 'parse time explodes with the number of trailing blanks', w)
         return
     if w['kind'] == 'native':
         rows = [r for r in _native_worker(T) if r[2]]
